@@ -200,7 +200,7 @@ const PZ: u16 = 0xf000;
 /// (new index current, nothing migrated). Batches: page PA; the full page; page PZ; the rest of the table + drop of the
 /// old index. Commits write, replace and remove keys of pages that are already migrated, being migrated, and not yet
 /// migrated, between any two batches and at any stage of the batch records.
-pub fn multi_scenario(name: &str, n: usize, x: usize, max_r: usize, crash: Option<CrashCfg>) -> Scenario {
+pub fn multi_scenario(name: &str, n: usize, x: usize, max_r: usize, alpha_n: usize, crash: Option<CrashCfg>) -> Scenario {
 	let mut spec = ColSpec::hash();
 	spec.uniform = true;
 	let mut cfg = Config::new(vec![spec]);
@@ -221,6 +221,8 @@ pub fn multi_scenario(name: &str, n: usize, x: usize, max_r: usize, crash: Optio
 	let mut all = alpha.clone();
 	all.push(fill.clone());
 	all.push(over.clone());
+	let mut alpha = alpha;
+	alpha.truncate(alpha_n);
 	let mut s = Scenario::new(name, cfg.clone(), alpha);
 	s.universe = universe_of(&cfg, &all, &[]);
 	s.init = vec![Ev::Commit(fill), Ev::Drain, Ev::Commit(over), Ev::Stage(St::P), Ev::Stage(St::F), Ev::Stage(St::E)];
@@ -243,8 +245,8 @@ pub fn multi_scenario(name: &str, n: usize, x: usize, max_r: usize, crash: Optio
 pub fn scenarios(tier: &str) -> Vec<Scenario> {
 	if tier == "thorough" {
 		vec![
-			multi_scenario("growth-in-batches/n2", 2, 1, 5, None),
-			multi_scenario("growth-in-batches-crash/n1", 1, 0, 5, Some(CrashCfg { torn: 0, recovery_depth: 1, ..Default::default() })),
+			multi_scenario("growth-in-batches/n2", 2, 1, 5, 2, None),
+			multi_scenario("growth-in-batches-crash/n1", 1, 0, 5, 2, Some(CrashCfg { torn: 0, recovery_depth: 1, ..Default::default() })),
 			scenario("growth/n3", 1, 3, 1, None),
 			pending_scenario("growth-pending/n3", 3, 1),
 			scenario("growth/n2", 1, 2, 1, None),
@@ -253,7 +255,8 @@ pub fn scenarios(tier: &str) -> Vec<Scenario> {
 			scenario("growth-power-loss/n1", 0, 1, 0, Some(CrashCfg { torn: 0, recovery_depth: 1, power_loss: true, max_full_subsets: 8, ..Default::default() })),
 		]
 	} else {
-		vec![multi_scenario("growth-in-batches/n1", 1, 1, 5, None), lane_scenario("page-search-edges/n4", 4, 0), scenario("growth/n1", 1, 1, 1, None), pending_scenario("growth-pending/n2", 2, 0), scenario("growth-crash/n1-growth-only", 9, 1, 0, Some(CrashCfg { torn: 0, recovery_depth: 1, ..Default::default() }))]
+		// (the growth-in-batches scenario comes last: it is the most expensive one and takes what is left of the budget)
+		vec![lane_scenario("page-search-edges/n4", 4, 0), scenario("growth/n1", 1, 1, 1, None), pending_scenario("growth-pending/n2", 2, 0), scenario("growth-crash/n1-growth-only", 9, 1, 0, Some(CrashCfg { torn: 0, recovery_depth: 1, ..Default::default() })), multi_scenario("growth-in-batches/n1-one-transaction", 1, 1, 5, 1, None)]
 	}
 }
 
